@@ -347,6 +347,19 @@ impl World {
                     }
                 }
             }
+            "MARK" => { use std::io::Write; let _ = std::io::stderr().write_all(format!("NVHMARK {}\n", a1).as_bytes()); vec![] }
+            "COPYDIR" => {
+                // copy the node's data directory (flat) to <base>/<name>
+                let dest = format!("{}/{}", self.base, a1);
+                let _ = std::fs::remove_dir_all(&dest);
+                std::fs::create_dir_all(&dest).unwrap();
+                if let Ok(rd) = std::fs::read_dir(&n.dir) {
+                    for e in rd.filter_map(|e| e.ok()) {
+                        if e.path().is_file() { std::fs::copy(e.path(), format!("{}/{}", dest, e.file_name().into_string().unwrap())).unwrap(); }
+                    }
+                }
+                vec![format!("# copied {} {}", n.dir, dest)]
+            }
             "DELMETA" => {
                 let _ = std::fs::remove_file(format!("{}/{}-nun.madadata", n.dir, a1));
                 let mut out = n.dump_files();
